@@ -30,6 +30,7 @@ type obligation struct {
 }
 
 type knownFinding struct {
+	ReplayNote string `json:"replay_note,omitempty"`
 	ID         string `json:"id"`
 	Property   string `json:"property"`
 	Obligation string `json:"obligation"`
@@ -326,6 +327,7 @@ func cmdCheck(args []string) {
 		seed, _ = strconv.Atoi(s)
 	}
 	t0 := time.Now()
+	loadOpenFindings(*verif)
 	w, err := loadWorld(*repo, filepath.Join(*verif, "stubs"))
 	if err != nil {
 		// the tree does not load (or a contract no longer binds): every
@@ -479,11 +481,40 @@ func reportOne(w *World, propID string, res *checkResult, verifD, outD, tierS st
 		}
 		viols = append(viols, violation{o, o.Status})
 	}
-	// open findings: obligations that are expected to fail
-	for n, f := range open {
-		o := res.obls[n]
-		if o != nil && o.Status != "discharged" {
+	// open findings: obligations that are expected to fail. The finding is
+	// reported while an obligation with that name (prefix) fails and, where a
+	// replay driver is registered for it, the history still fails on the
+	// real code.
+	var onames []string
+	for n := range res.obls {
+		onames = append(onames, n)
+	}
+	sort.Strings(onames)
+	var ofs []string
+	for n := range open {
+		ofs = append(ofs, n)
+	}
+	sort.Strings(ofs)
+	for _, n := range ofs {
+		f := open[n]
+		for _, on := range onames {
+			o := res.obls[on]
+			if !strings.HasPrefix(on, n) || o.Status == "discharged" {
+				continue
+			}
+			confirmed, rep := runReplayDriver(propID, o, repoD)
+			if rep != nil && !confirmed {
+				// the obligation is undecided but the recorded history no
+				// longer fails: not reported as the known finding
+				f.ReplayNote = "obligation " + on + " is not discharged, but the recorded history no longer fails on the real code"
+				res.notes["open finding "+f.ID+": "+f.ReplayNote] = true
+				break
+			}
+			if rep != nil {
+				f.ReplayNote = "history replayed on the real code: the driver test fails as recorded"
+			}
 			known = append(known, f)
+			break
 		}
 	}
 	// an obligation of this property that is refuted but not claimed and not
